@@ -32,13 +32,13 @@ P = {
          "Every map class is applied to nb<=3 bunches with per-bunch data and fields; every slice must equal, bit for bit, the single-bunch run on the same data and field (the arithmetic is identical).",
          "nb <= 3, n <= 12.", "6/C08", "A+B"),
  "C09": ("exploration", "bounded exhaustive enumeration of fillings x impulse/pair/Gaussian data against double-precision reference moments",
-         "Normalisation and moments of the real PhaseSpace for every filling composition (incl. empty buckets), every impulse and impulse pair, and a Gaussian lattice in four magnitudes; plus an explicit search over all call histories up to depth 5 (6) of {write, both projections, integrate, normalize, shorthand, both variances, copy, assign, swap} against a freshness model of the caches.",
-         "Equal extent of both axes (the only grids main() can build).", "6/C09", "A"),
+         "Normalisation and moments of the real PhaseSpace for every filling composition (incl. empty buckets), every impulse and impulse pair, and a Gaussian lattice in four magnitudes; plus an explicit search over all call histories up to depth 5 (6) of {write, both projections, integrate, normalize, shorthand, both variances, copy, assign, swap} against a freshness model of the caches; the constructor's own Gaussian for six zoom factors; process level: populations in every record written at a renormalisation step of the real binary (filling patterns x starts x RenormalizeCharge).",
+         "Equal extent of both axes (the only grids main() can build).", "6/C09", "A+B"),
  "C10": ("model_checking", "TLC explicit-state model of main()'s output protocol, every terminal behaviour replayed on the real binary; record contents recomputed from the file",
          "Record structure: all behaviours of the TLA+ model of the main loop for a configuration lattice, each replayed on the hooked binary with label-trace equality. Record contents: recomputation from the stored datasets at every record.",
          "Model bound to code by two-way trace conformance; configuration lattice bounded.", "6/C10", "C+B"),
  "C11": ("fault_enumeration", "every split point of a bounded run (crash-point enumeration) x configurations, bit-exact / drift-bounded comparison",
-         "Every split point T1 of a 16-step run is executed as two legs of the real binary and compared with the uninterrupted run; unusable start files are enumerated as faults.",
+         "Every split point T1 of a 16-step (thorough: 32-step) run is executed as two legs of the real binary and compared with the uninterrupted run (bitwise for RenormalizeCharge<0, within rounding for 0, rescaled by the recorded charge for >0), also written over its own start file; unusable start files, records outside the file, older layouts and other storage types are enumerated as faults.",
          "Horizon 16 steps; same FFT wisdom.", "6/C11", "B"),
  "C12": ("exploration", "bounded exhaustive enumeration of observation settings, bitwise comparison of all common records",
          "All combinations of output cadence, save cadence, tracking, verbosity and file name for a base run; final phase space and all common records must be bitwise identical.",
